@@ -83,6 +83,29 @@ static void accessors(json_object *o, const char *kind, int exact_neg, uint64_t 
 	ev_str("errno", en(e));
 	ev_close_obj();
 	ev_bool("bool", json_object_get_boolean(o));
+	{
+		/* the value an accessor returns is a function of the node, not of what errno happened to hold on entry
+		 * (the caller of the previous accessor may have left ERANGE or EINVAL there) */
+		static const int amb[] = {ERANGE, EINVAL, ENOMEM};
+		int same = 1;
+		for (int a = 0; a < 3; a++)
+		{
+			errno = amb[a];
+			if (json_object_get_int(o) != i32)
+				same = 0;
+			errno = amb[a];
+			if (json_object_get_int64(o) != i64)
+				same = 0;
+			errno = amb[a];
+			if (json_object_get_uint64(o) != u64)
+				same = 0;
+			errno = amb[a];
+			double d2 = json_object_get_double(o);
+			if (memcmp(&d2, &d, sizeof d) && !(d2 != d2 && d != d))
+				same = 0;
+		}
+		ev_bool("ambient_same", same);
+	}
 	/* trusted conversions supplied as data */
 	double cast = 0;
 	if (have_exact)
